@@ -69,6 +69,7 @@ REVERT_EXPECT: Dict[str, List[Tuple[str, str]]] = {
     "8c999d6": [("C06", "K9.identity-term")],
     "e7ccf88": [("C07", "K8.update-equals-rebuild")],
     "e8e6afc": [("C07", "K8.term-order")],
+    "d61aa33": [("C01", "K6.initial-state-shapes")],
     "701d027": [("C16", "K9.multiform-semantics")],
     "73885a1": [("C16", "K9.multiform-semantics")],
     "4206294": [("C16", "K6.plain-operand")],
